@@ -264,6 +264,9 @@ func r054(c *Ctx) {
 	for _, w := range c.writesOfField(c.field("Service", "name")) {
 		o := fname(outer(w.fn))
 		ok := o == "server.NewService" || o == "(*server.Service).UnmarshalJSON"
+		if _, fresh := w.base.(*ssa.Alloc); fresh {
+			ok = true // the object is allocated in this very function: construction
+		}
 		c.ob(rule, "write Service.name <- "+o, w.instr.Pos(), ok, false, "a service's name is fixed at construction/restore")
 	}
 	for _, w := range c.writesOfField(c.field("Router", "services")) {
